@@ -403,8 +403,8 @@ func parallel(n, workers int, f func(i int)) {
 	wg.Wait()
 }
 
-func envBits(c *Case, syntaxBad bool) string {
-	return strings.Join([]string{vl.B(c.FlagsBad), vl.B(syntaxBad), "0", vl.B(c.TargetsBad), vl.B(c.BackendBad), "0"}, " ")
+func envBits(c *Case, syntaxBad, parsePanic bool) string {
+	return strings.Join([]string{vl.B(c.FlagsBad), vl.B(syntaxBad), vl.B(parsePanic), vl.B(c.TargetsBad), vl.B(c.BackendBad), "0"}, " ")
 }
 
 const emptyProgram = "0 0"
@@ -412,6 +412,10 @@ const emptyProgram = "0 0"
 func run(repo, dir string, seed uint64, tier string) error {
 	if dir == "" {
 		return fmt.Errorf("-dir required")
+	}
+	dir, err := filepath.Abs(dir)
+	if err != nil {
+		return err
 	}
 	bin, err := buildBinary(repo, dir)
 	if err != nil {
@@ -502,6 +506,7 @@ func run(repo, dir string, seed uint64, tier string) error {
 		instances []string
 	}
 	groups := map[string]*group{}
+	sampled := map[string]bool{}
 	var gorder []string
 	for _, j := range jobs {
 		c := j.c
@@ -536,7 +541,7 @@ func run(repo, dir string, seed uint64, tier string) error {
 					prog = "1 0 F 6d 0 0 0 0 0 0 0 0"
 				}
 			}
-			out.Case(fmt.Sprintf("R %s %s", envBits(c, syntaxBad), prog), o.class()+" "+o.written(), nontrivial)
+			out.Case(fmt.Sprintf("R %s %s", envBits(c, syntaxBad, c.Pos != "cmdline" && j.ip.ParsePanic), prog), o.class()+" "+o.written(), nontrivial)
 			out.Count("binary:" + o.class())
 			if why := oracle(c.Valid, o); why != "" {
 				key := c.Rule + "|" + why
@@ -549,9 +554,10 @@ func run(repo, dir string, seed uint64, tier string) error {
 				g.instances = append(g.instances, fmt.Sprintf("%s/%s/%s/%s/%s", c.Base, c.Variant, c.Pos, be, o.Head1()))
 			}
 		}
-		if len(out.Samples) < 8 && c.Rule != "none" && c.Base == "minimal" && c.Pos == "inc" && len(out.Samples) < 8 && (len(out.Samples) == 0 || out.Samples[len(out.Samples)-1].(map[string]interface{})["rule"] != c.Rule) {
+		if c.Rule != "none" && c.Base == "minimal" && c.Pos == "inc" && !sampled[c.Rule] && len(sampled)%4 == 0 {
 			out.Sample(map[string]interface{}{"rule": c.Rule, "variant": c.Variant, "pos": c.Pos, "staged": j.ip.Staged, "go": j.obs["go"].class(), "fastgo": j.obs["fastgo"].class()})
 		}
+		sampled[c.Rule] = true
 	}
 	for _, key := range gorder {
 		g := groups[key]
@@ -667,8 +673,18 @@ func minimise(bin, scratch string, j *job, be, class string) vl.OracleFail {
 			return oracle(c.Valid, runBinary(bin, d, caseArgs(c, be))) == class
 		}
 		dropped := map[lineRef]bool{}
+		with := func(extra []lineRef) map[lineRef]bool {
+			d := map[lineRef]bool{}
+			for k := range dropped {
+				d[k] = true
+			}
+			for _, rf := range extra {
+				d[rf] = true
+			}
+			return d
+		}
 		chunk := (len(cand) + 1) / 2
-		for chunk >= 1 && len(cand) > 0 {
+		for len(cand) > 0 {
 			var chunks [][]lineRef
 			for i := 0; i < len(cand); i += chunk {
 				e := i + chunk
@@ -678,29 +694,14 @@ func minimise(bin, scratch string, j *job, be, class string) vl.OracleFail {
 				chunks = append(chunks, cand[i:e])
 			}
 			okc := make([]bool, len(chunks))
-			parallel(len(chunks), 16, func(i int) {
-				d := map[lineRef]bool{}
-				for k := range dropped {
-					d[k] = true
-				}
-				for _, rf := range chunks[i] {
-					d[rf] = true
-				}
-				okc[i] = test(d)
-			})
-			// accept removable chunks one after the other, re-testing the union
+			parallel(len(chunks), 16, func(i int) { okc[i] = test(with(chunks[i])) })
+			// accept removable chunks one after the other; after the first, re-test the union
 			progress := false
 			for i, ok := range okc {
 				if !ok {
 					continue
 				}
-				d := map[lineRef]bool{}
-				for k := range dropped {
-					d[k] = true
-				}
-				for _, rf := range chunks[i] {
-					d[rf] = true
-				}
+				d := with(chunks[i])
 				if !progress || test(d) {
 					dropped = d
 					progress = true
@@ -713,18 +714,19 @@ func minimise(bin, scratch string, j *job, be, class string) vl.OracleFail {
 				}
 			}
 			cand = rest
-			if !progress || chunk == 1 {
+			if !progress {
 				if chunk == 1 {
-					if !progress {
-						break
-					}
-					continue
+					break
 				}
 				chunk = (chunk + 1) / 2
+			} else if chunk > (len(cand)+1)/2 && chunk > 1 {
+				chunk = (len(cand) + 1) / 2
+			}
+			if chunk < 1 {
+				chunk = 1
 			}
 		}
 		files = assemble(ls, dropped)
-		// drop files nobody includes any more: only if still failing
 		minimised = true
 	}
 	args := caseArgs(c, be)
